@@ -308,10 +308,16 @@ def opt_decision(ctx, lexpr, pt):
         raise KeyError(name)
 
     texts = [b"nil", b"t", b"x", b"nil:", b"t:", b"x:", b"nilx", b"tt", b"n", b"nil::"]
+    flags = (0, 2, 5, 7)
+    if ctx.tier == "thorough":
+        # every combination of the three keyword spellings, and more texts around the two special names
+        texts += [b"Nil", b"NIL", b"T", b"ni", b"nill", b"t:t", b":", b"a:b", b"nil:x", b"tnil", b"x::", b"nil-", b"t1"]
+        texts = [x for x in texts if x[:1].isalpha()]
+        flags = tuple(range(8))
     n = 0
     decided = 0
     undecided = []
-    for kw in (0, 2, 5, 7):
+    for kw in flags:
         for nil in ("Default", "EmptyList", "Special"):
             for tsym in ("Default", "True"):
                 for text in texts:
